@@ -7,3 +7,9 @@ import (
 type embeddedLoader interface {
 	Load(lex lexeme.LexEvent) bool
 }
+
+// lineAwareLoader an embedded loader which has to know where a line of the
+// annotation ends (the NewLine lexical events aren't passed to the Load method).
+type lineAwareLoader interface {
+	NewLine()
+}
